@@ -264,6 +264,67 @@ func init() {
 			return TG(SRef, res, c.name("cerr", Ite(c.isClosed(st, c.ctxDone(ctx)), e, Null)).S)
 		}}
 
+	// ---- promise.PromiseLike (interface contract taken from the property statement C11 and the interface's doc) ----
+	awaitModel := func(method string) *model {
+		return &model{name: "promise.PromiseLike." + method + ": blocks while the promise has no result, ctx is live and the extra channel has not fired; returns the promise's (value, error) when it completes by result, context.Canceled otherwise",
+			mods: func(c *VCtx, cc *ssa.CallCommon) map[string]Sort {
+				return map[string]Sort{"G:now": SInt, "G:recvs": ArrSort(SRef, SInt)}
+			},
+			run: func(c *VCtx, fr *Frame, st *State, cc *ssa.CallCommon, args []Val, res types.Type) Val {
+				p := c.asTerm(args[0])
+				ctx := c.asTerm(args[1])
+				c.safety(fr, st, "nilderef", Not(Eq(p, Null)), cc.Pos())
+				c.safety(fr, st, "nilctx", Not(Eq(ctx, Null)), cc.Pos())
+				c.blockingPoint(fr, st, cc.Pos())
+				c.curSelectChans = []*Term{c.ctxDone(ctx)}
+				var extra *Term
+				if len(args) > 2 {
+					extra = c.asTerm(args[2])
+					c.curSelectChans = append(c.curSelectChans, extra)
+				}
+				c.curSelectBlocking = true
+				fr.invokes++
+				c.pointAsserts(fr, st, fmt.Sprintf("invoke %d", fr.invokes), cc.Pos())
+				c.observe(st)
+				tup := res.(*types.Tuple)
+				val := c.freshVal("pv", tup.At(0).Type())
+				err := c.asTerm(c.freshVal("perr", tup.At(1).Type()))
+				c.knownAll(st, val)
+				c.known(st, err)
+				byres := c.fresh("byresult", SBool)
+				canceled := c.asTerm(c.globalVal(c.eng.globalByName("context", "Canceled")))
+				woke := c.isClosed(st, c.ctxDone(ctx))
+				if extra != nil {
+					et := cc.Args[1].Type().Underlying().(*types.Chan).Elem()
+					if isEmptyStruct(et) {
+						woke = Or(woke, And(Not(Eq(extra, Null)), c.isClosed(st, extra)))
+					} else {
+						// a value channel: fired = this call received from it
+						rh := c.heap(st, "G:recvs", ArrSort(SRef, SInt))
+						got := c.fresh("gotextra", SBool)
+						c.fact(Implies(got, Not(Eq(extra, Null))))
+						c.setHeap(st, "G:recvs", Ite(got, Store(rh, extra, Add(Select(rh, extra), IntLit(1))), rh))
+						woke = Or(woke, got)
+						// the error received from the channel is returned as is (nil is possible only if the sender sent nil)
+						canceled = nil
+					}
+				}
+				c.fact(Implies(And(st.pc, byres), c.isResolved(st, p)))
+				if vt, ok := val.(*Term); ok {
+					c.fact(Implies(And(st.pc, byres), Eq(vt, c.resVal(p, vt.Sort))))
+				}
+				c.fact(Implies(And(st.pc, byres), Eq(err, c.resErr(p))))
+				c.fact(Implies(And(st.pc, Not(byres)), woke))
+				if canceled != nil {
+					c.fact(Implies(And(st.pc, Not(byres)), Eq(err, canceled)))
+				}
+				return Tuple{val, err}
+			}}
+	}
+	for _, m := range []string{"Await", "AwaitWithCancelCh", "AwaitWithErrCh"} {
+		invokeModels[ModPath+"/promise.PromiseLike."+m] = awaitModel(m)
+	}
+
 	// ---- io ----
 	rw := func(name string, writesBuf bool) *model {
 		return &model{name: name + "(p) returns 0 <= n <= len(p) and an error; only p[0:len(p)] may be written", mods: func(c *VCtx, cc *ssa.CallCommon) map[string]Sort {
@@ -423,4 +484,21 @@ func (c *VCtx) atomicPoint(fr *Frame, st *State, l *Loc) {
 }
 func (c *VCtx) atomicDone(fr *Frame, st *State, l *Loc) {
 	c.atomicHook(fr, st, l, false)
+}
+
+// resolvedAt(p): the instant at which promise-like p obtains its result (< 0: never); a prophecy like closedAt.
+func (c *VCtx) isResolved(st *State, p *Term) *Term {
+	fn := c.declareFun("resolvedAt", []Sort{SRef}, SInt)
+	at := T(SInt, fmt.Sprintf("(%s %s)", fn, p.S))
+	return And(Ge(at, IntLit(0)), Le(at, c.now(st)))
+}
+
+func (c *VCtx) resVal(p *Term, s Sort) *Term {
+	fn := c.declareFun("resval!"+sanitize(string(s)), []Sort{SRef}, s)
+	return T(s, fmt.Sprintf("(%s %s)", fn, p.S))
+}
+
+func (c *VCtx) resErr(p *Term) *Term {
+	fn := c.declareFun("reserr", []Sort{SRef}, SRef)
+	return T(SRef, fmt.Sprintf("(%s %s)", fn, p.S))
 }
